@@ -200,6 +200,30 @@ def run(check):
         g = {"program": Program(steps, outs, gen.BASE_INPUT), "scripts": gen.make_scripts(steps, {"root": bad}), "input": gen.base_input(rng), "shape": "fan_out_waiters_%d/%s/%s" % (k, bad, how), "outcome": {"root": bad}}
         case, sem = runfam.build_case("c01-fo%04d" % j, g)
         items.append((case, sem, g))
+    # loops over an empty list (from the input, as a literal, as the result of an earlier step), alone and next to other steps
+    from ..model import Step as _Step
+    for j in range(check.pick(12, 60)):
+        rng = random.Random(derive_seed(check.seed, "c01-emptyloop", j))
+        how = ["input", "literal", "step-result", "input-with-parallelism"][j % 4]
+        sub = gen.sub_program("sub.yaml", rng.choice([1, 2]))
+        steps = []
+        if how == "step-result":
+            steps.append(gen.plugin_step("a", Expr(In("tag")), extra_input={"l": []}))
+            loop = _Step("loop", "foreach", sub=gen.sub_program("sub.yaml", 1), items=Expr(In("items")), wait_for=Expr(Ref("a", "outputs", "success")))
+        elif how == "literal":
+            loop = _Step("loop", "foreach", sub=sub, items=[])
+        else:
+            loop = _Step("loop", "foreach", sub=sub, items=Expr(In("items")))
+            if how == "input-with-parallelism":
+                loop.fields["parallelism"] = rng.choice([1, 3])
+        steps.append(loop)
+        if j % 3 == 0:
+            steps.append(gen.plugin_step("after", Expr(In("tag")), wait_for=Expr(Ref("loop", "outputs", "success"))))
+        rng.shuffle(steps)
+        outs = {"success": {"d": Expr(Ref("loop", "outputs", "success", "data"))}, "failed": {"e": Expr(Ref("loop", "failed", "error"))}}
+        g = {"program": Program(steps, outs, gen.BASE_INPUT), "scripts": gen.make_scripts(steps, {}), "input": {"tag": "T", "items": []}, "shape": "loop-over-empty-list/%s" % how, "outcome": {"loop": "empty"}}
+        case, sem = runfam.build_case("c01-el%04d" % j, g)
+        items.append((case, sem, g))
     orders = set()
     delayed = [0]
 
